@@ -34,6 +34,16 @@ def closure(ctx):
         if p.startswith("chia_traits::streamable::Streamable::"):
             roots.add(p)
     streamable_tys = set(impls)
+    # "every operation a receiver performs on a decoded value (re-encode, hash, compare)": hand-written comparison / hashing /
+    # cloning impls of Streamable types are roots too (derived ones are field-wise and cannot panic)
+    RECV = ("core::cmp::PartialEq", "core::hash::Hash", "core::clone::Clone", "core::cmp::Ord", "core::cmp::PartialOrd", "core::cmp::Eq")
+    n_recv = 0
+    for p, f in fb.fns.items():
+        im = f.e.get("impl") or {}
+        if im.get("trait") in RECV and f.e.get("exp") is None and im.get("self_ty") in streamable_tys:
+            roots.add(p)
+            n_recv += 1
+    ctx.note("receiver-operation roots (hand-written PartialEq/Hash/Clone of Streamable types): %d" % n_recv)
     impl_by_method = {}
     for p in fb.fns:
         m = re.match(r"^<(.*) as (.*)>::(\w+)$", p)
